@@ -47,7 +47,7 @@ NCASES = {"quick": 8000, "thorough": 200000}
 FLOORS = {"quick": {"held": 1500, "simplified_held": 200}, "thorough": {"held": 40000, "simplified_held": 5000}}
 OPS = [
     "add", "sub", "mul", "div", "pow", "neg", "abs", "conj", "real", "imag", "radd", "rmul", "rsub", "rdiv", "rpow",
-    "getitem", "getitem", "getitem", "as_tensor_idx", "as_tensor_idx", "stack", "stack", "stack_rows_views", "dot", "inner", "outer", "cross", "perp",
+    "getitem", "getitem", "getitem", "getitem_bound", "as_tensor_idx", "as_tensor_idx", "stack", "stack", "stack_rows_views", "dot", "inner", "outer", "cross", "perp",
     "transpose", "tr", "det", "inv", "cofac", "dev", "skew", "sym", "diag", "diag_vector", "elem_mult", "elem_div", "elem_pow",
     "conditional", "sign", "minmax", "math", "atan2", "bessel", "mul_chain", "sum_chain", "unary_chain", "unary_chain",
 ]
@@ -201,6 +201,44 @@ def build(rng, U, G, op, cplx):
             a = Operand(G.expr(sh2, 1), "expr")
         spec, py = comp_spec(rng, U, sh2, a.obj.ufl_free_indices)
         key = py[0] if len(py) == 1 and rng.random() < 0.5 else py
+        return (lambda: a.obj[key]), (lambda x: R.getitem(x, spec)), [a]
+    if op == "getitem_bound":
+        # index a tensor-valued expression with the very Index objects it binds inside (summation / component
+        # tensor indices): the indexing shortcuts must not capture them
+        i, j, k, _ = U.idx
+        n, m = rng.choice([2, 3]), rng.choice([2, 3])
+        pat = rng.choice(["sum-slice", "sum-slice2", "sum-ii", "ct-perm", "ct-sum", "nested-sum"])
+        if pat == "sum-slice":
+            base = G.expr((n,), 1)[i] * G.expr((n, m), 1)[i, :]
+        elif pat == "sum-slice2":
+            base = G.expr((n, m, m), 0)[i, :, :] * G.expr((n,), 1)[i]
+        elif pat == "sum-ii":
+            base = G.expr((m, n, n), 0)[:, i, i]
+        elif pat == "ct-perm":
+            base = as_tensor(G.expr((n, m), 1)[i, j], (j, i))
+        elif pat == "ct-sum":
+            base = as_tensor(G.expr((n, m), 1)[i, j] * G.expr((n,), 0)[i], (j,))
+        else:
+            inner_s = G.expr((n,), 0)[j] * G.expr((n, m), 0)[j, :]
+            base = G.expr((m,), 0)[i] * as_tensor(inner_s[i] * G.expr((m,), 0)[k], (i, k))[i, :]
+        a = Operand(base, "bound:" + pat)
+        sh2 = tuple(base.ufl_shape)
+        spec, py = [], []
+        for d in sh2:
+            c = rng.random()
+            if c < 0.75:
+                ix = rng.choice([i, i, j, k])
+                spec.append(("index", ix.count()))
+                py.append(ix)
+            elif c < 0.9:
+                v = rng.randrange(d)
+                spec.append(("int", v))
+                py.append(v)
+            else:
+                spec.append(("slice",))
+                py.append(slice(None))
+        spec, py = tuple(spec), tuple(py)
+        key = py[0] if len(py) == 1 else py
         return (lambda: a.obj[key]), (lambda x: R.getitem(x, spec)), [a]
     if op == "as_tensor_idx":
         i, j, k, _ = U.idx
@@ -609,7 +647,7 @@ _EXPECTED_TOP = {
     "add": "Sum", "sub": "Sum", "mul": None, "div": None, "pow": "Power", "neg": None, "abs": "Abs", "conj": "Conj", "real": "Real", "imag": "Imag",
     "dot": "Dot", "inner": "Inner", "outer": "Outer", "cross": "Cross", "perp": "Perp", "transpose": "Transposed", "tr": "Trace", "det": "Determinant",
     "inv": "Inverse", "cofac": "Cofactor", "dev": "Deviatoric", "skew": "Skew", "sym": "Sym", "conditional": "Conditional", "stack": "ListTensor",
-    "stack_rows_views": "ListTensor", "as_tensor_idx": "ComponentTensor", "getitem": None, "minmax": None, "sign": "Conditional",
+    "stack_rows_views": "ListTensor", "as_tensor_idx": "ComponentTensor", "getitem": None, "getitem_bound": None, "minmax": None, "sign": "Conditional",
 }
 
 
